@@ -249,6 +249,106 @@ def directed(rng, tier):
         script += [{"op": "call", "inst": 1, "export": "dirty", "args": [arg("i32", 0x01010101 * (j + 1))]},
                    {"op": "call", "inst": 1, "export": "rd%d" % j, "args": [arg("i32", 5)]}]
     items.append({"id": "zero", "module": m, "script": script})
+    # (z2) a declared local whose FIRST access in program order is a write that does not happen on every path (inside an `if`
+    #      arm or an else arm, behind a br_if / br / br_table out of a block, in a loop's later iteration), read afterwards on
+    #      the path that skipped the write: still zero.  Every value type; after the C stack has been dirtied.
+    funcs, exps, script = [], [], [INST]
+    K = {"i32": ["i32.const", b32(5)], "i64": ["i64.const", b64(5)], "f32": ["f32.const", b32(0x40A00000)], "f64": ["f64.const", b64(0x4014000000000000)]}
+    conv = {"i32": [], "i64": [["i32.wrap_i64"]], "f32": [["i32.reinterpret_f32"]], "f64": [["i64.reinterpret_f64"], ["i32.wrap_i64"]]}
+    shapes = {
+        "ifset": lambda t: [["local.get", 0], ["if", ""], K[t], ["local.set", 1], ["end"], ["local.get", 1]],
+        "elseset": lambda t: [["local.get", 0], ["if", ""], ["nop"], ["else"], K[t], ["local.set", 1], ["end"], ["local.get", 1]],
+        "brifskip": lambda t: [["block", ""], ["local.get", 0], ["br_if", 0], K[t], ["local.set", 1], ["end"], ["local.get", 1]],
+        "brifskip2": lambda t: [["block", ""], ["block", ""], ["local.get", 0], ["br_if", 1], ["end"], K[t], ["local.tee", 1], ["drop"], ["end"], ["local.get", 1]],
+        "brtableskip": lambda t: [["block", ""], ["block", ""], ["local.get", 0], ["br_table", [0, 1], 1], ["end"], K[t], ["local.set", 1], ["end"], ["local.get", 1]],
+        "loopsecond": lambda t: [["loop", ""], ["local.get", 1]] + conv[t] + [["local.get", 2], ["i32.add"], ["local.set", 2], K[t], ["local.set", 1],
+                                 ["local.get", 0], ["i32.const", b32(1)], ["i32.sub"], ["local.tee", 0], ["br_if", 0], ["end"], ["local.get", 2], ["return"]],
+        "ifsetnested": lambda t: [["block", ""], ["local.get", 0], ["i32.eqz"], ["br_if", 0], ["local.get", 0], ["i32.const", b32(2)], ["i32.eq"], ["if", ""], K[t], ["local.set", 1], ["end"], ["end"], ["local.get", 1]],
+    }
+    for t in ("i32", "i64", "f32", "f64"):
+        for sh, mk in shapes.items():
+            body = mk(t)
+            if sh != "loopsecond":
+                body = body + conv[t]
+            funcs.append({"type": 0, "locals": [[t, 1], ["i32", 1]], "body": body + [["end"]]})
+            exps.append({"name": "%s_%s" % (sh, t), "kind": "func", "idx": len(funcs) - 1})
+    funcs.append(dict(m["funcs"][-1]))          # dirty(x) from the family above
+    exps.append({"name": "dirty", "kind": "func", "idx": len(funcs) - 1})
+    for e_ in exps[:-1]:
+        for a_ in (0, 1, 2, 3):
+            script += [{"op": "call", "inst": 1, "export": "dirty", "args": [arg("i32", 0x01010101 * (a_ + 3))]},
+                       {"op": "call", "inst": 1, "export": e_["name"], "args": [arg("i32", a_)]}]
+    items.append({"id": "condset", "module": {"types": [{"p": ["i32"], "r": ["i32"]}], "funcs": funcs, "exports": exps}, "script": script})
+    return items
+
+
+def dead_everything(rng):
+    """Every instruction of the feature set, with immediates whose bytes look like structure (end, else, block, loop, if), once in
+    code made unreachable by br / return / unreachable / br_table; the code after the enclosing block must run as if it were not there."""
+    import wasm_encode
+    ops = sorted(wasm_encode.OPS)
+    structural = {"block", "loop", "if", "else", "end"}
+    killers = [[["br", 0]], [["return"]], [["unreachable"]], [["i32.const", b32(0)], ["br_table", [0, 0], 0]]]
+    funny32 = [b32(x) for x in (0x0B, 0x05, 0x02, 0x03, 0x04, 0x0B0B0B0B & 0x7FFFFFFF, 0x40, 11 << 7 | 5)]
+    funny64 = [b64(x) for x in (0x0B, 0x05, 0x0B0B0B0B0B, 0x02 << 35 | 0x0B)]
+    funcs, exps, script = [], [], [INST]
+    n = 0
+    for op in ops:
+        if op in structural:
+            continue
+        kind = None
+        variants = []
+        if op in ("br", "br_if"):
+            variants = [[op, 0], [op, 1]]
+        elif op == "br_table":
+            variants = [[op, [0, 1, 0, 1, 0, 1, 0, 1, 0, 1, 0], 1], [op, [], 0], [op, [1] * 5, 0]]
+        elif op == "call":
+            variants = [[op, 0]]
+        elif op == "call_indirect":
+            variants = [[op, 0, 0]]
+        elif op in ("local.get", "local.set", "local.tee"):
+            variants = [[op, 0]]
+        elif op in ("global.get", "global.set"):
+            variants = [[op, 0]]
+        elif op in wasm_encode.MEMOPS:
+            al = wasm_encode.natural_align(op)
+            variants = [[op, al, 11], [op, 0 if ".atomic." not in op else al, 5], [op, al, 0x0B0B]]
+        elif op == "i32.const":
+            variants = [[op, x] for x in funny32[:4]]
+        elif op == "i64.const":
+            variants = [[op, x] for x in funny64[:3]]
+        elif op == "f32.const":
+            variants = [[op, [0x0B, 0x05, 0x02, 0x0B]], [op, [0x04, 0x03, 0x40, 0x0B]]]
+        elif op == "f64.const":
+            variants = [[op, [0x0B, 0x05, 0x02, 0x03, 0x04, 0x0B, 0x40, 0x0B]]]
+        elif op in ("memory.init", "data.drop"):
+            variants = [[op, 0]]
+        else:
+            variants = [[op]]
+        for ins in variants:
+            kl = killers[n % len(killers)]
+            # the function's own result travels in a local so that `return` in the dead prelude is harmless to validate
+            # two enclosing void blocks: labels 0 and 1 have the same (empty) type whatever the dead instruction names
+            if kl[0][0] == "return":
+                body = [["block", ""], ["block", ""], ["local.get", 0], ["i32.const", b32(100)], ["i32.add"], ["return"], ins, ["unreachable"], ["end"], ["end"], ["i32.const", b32(0)]]
+            elif kl[0][0] == "unreachable":
+                body = [["block", ""], ["block", ""], ["local.get", 0], ["br_if", 0], ["unreachable"], ins, ["unreachable"], ["end"], ["end"], ["local.get", 0], ["i32.const", b32(1)], ["i32.add"]]
+            else:
+                body = [["block", ""], ["block", ""]] + kl + [ins, ["unreachable"], ["end"], ["end"], ["local.get", 0], ["i32.const", b32(1)], ["i32.add"]]
+            funcs.append({"type": 0, "locals": [], "body": body + [["end"]]})
+            exps.append({"name": "d%d" % n, "kind": "func", "idx": len(funcs) - 1})
+            script.append({"op": "call", "inst": 1, "export": "d%d" % n, "args": [arg("i32", 7 + n % 5)]})
+            n += 1
+    m = {"types": [{"p": ["i32"], "r": ["i32"]}], "funcs": funcs, "exports": exps, "memory": {"min": 1, "max": 1, "shared": True},
+         "table": {"min": 1, "max": 1}, "globals": [{"t": "i32", "mut": True, "init": ["i32.const", b32(0)]}],
+         "data": [{"mode": "passive", "bytes": [1, 2, 3]}], "datacount": True, "uses_memory_init": True}
+    # split over a few modules so that TLC shards and compiler invocations balance
+    items = []
+    per = 120
+    for c in range(0, len(funcs), per):
+        fs = funcs[c:c + per]
+        items.append({"id": "deadall%d" % (c // per), "module": dict(m, funcs=fs, exports=[{"name": "d%d" % (c + k), "kind": "func", "idx": k} for k in range(len(fs))]),
+                      "script": [INST] + script[1 + c:1 + c + per]})
     return items
 
 
@@ -269,7 +369,7 @@ def main():
         m2 = dict(it["module"], funcs=[dict(f, body=strip_dead(f["body"])) for f in it["module"]["funcs"]])
         if any(len(f2["body"]) != len(f["body"]) for f, f2 in zip(it["module"]["funcs"], m2["funcs"])):
             stripped.append({"id": it["id"] + "_s", "module": m2, "script": it["script"]})
-    items = gen + stripped + directed(rng, tier)
+    items = gen + stripped + directed(rng, tier) + dead_everything(rng)
     # gcc-O0-pattern: automatic variables the generated code does not initialise hold 0xFE.. instead of whatever was there
     # the validator that gates every replayed scenario accepts / rejects its control modules for the stated reasons
     wv = tlc_ok(tlc("WasmValidCheck", timeout=300), "WasmValidCheck")
